@@ -125,6 +125,20 @@ def _child_main(fn, arg, wfd):
         os._exit(status)
 
 
+def _fork_with_retry(attempts: int = 8):
+    """os.fork(), retried with back-off when the machine is momentarily out of processes or memory (EAGAIN / ENOMEM under heavy load)."""
+    delay = 0.2
+    for i in range(attempts):
+        try:
+            return os.fork()
+        except OSError as exc:
+            if i == attempts - 1 or exc.errno not in (11, 12):
+                raise
+            time.sleep(delay)
+            delay = min(delay * 2, 5.0)
+    raise RuntimeError("unreachable")
+
+
 class ForkPool:
     """Runs ``fn(arg)`` in forked children, at most ``slots`` at a time; yields (tag, payload)."""
 
@@ -136,7 +150,7 @@ class ForkPool:
         rfd, wfd = os.pipe()
         sys.stdout.flush()
         sys.stderr.flush()
-        pid = os.fork()
+        pid = _fork_with_retry()
         if pid == 0:
             os.close(rfd)
             for info in self.active.values():
@@ -220,7 +234,7 @@ def fork_call(fn, arg, timeout=600.0):
     rfd, wfd = os.pipe()
     sys.stdout.flush()
     sys.stderr.flush()
-    pid = os.fork()
+    pid = _fork_with_retry()
     if pid == 0:
         os.close(rfd)
         status = 0
